@@ -522,7 +522,7 @@ def gen_series(rng, thorough):
                         leaf["a"] = leaf.pop("f")
             feats["array_leaves"] = True
     # rare structural irregularities
-    r = rng.random() if not via_collection else 1.0
+    r = rng.random() if not (via_collection or feats.get("alias")) else 1.0
     if r < 0.05:
         # one instance holds an int where the others hold a float
         cands = [p for p in walk(insts[0]) if list(p) != qpath]
@@ -976,12 +976,15 @@ def query_nontrivial(s, q, r):
 
 def run(ctx):
     ctx.rule = ("a case is one query interpolator[path == value] (LinearInterpolator or SplineInterpolator) on a generated series of "
-                "2-7 (thorough: 2-9) instances of a random nested shape (ModelInstance / plain objects / Gaussian / lists / tuples / int, "
-                "str, None and private attributes; data linear, quadratic, random or constant in the variable; abscissae dyadic, arbitrary, "
-                "int, mixed, repeated or containing -0.0; variable at the root or nested), supplied in several orders, queried at nodes, "
-                "inside, outside and one ulp beside a node; plus exact-least-squares cases. Non-trivial: the series is within the "
-                "property's quantifier (same shape, distinct abscissae) and either the query is off-node with >= 2 interpolated float "
-                "leaves, or it is at a node of a series supplied in non-sorted order; distinct = distinct (series, order, method, value)")
+                "2-7 (thorough: 2-9) instances of a random nested shape (ModelInstance / plain objects / Gaussian / lists / tuples / dicts / "
+                "int, str, None and private attributes; built directly, through af.Collection (optionally frozen), with one component "
+                "aliased at two attributes, with numpy.float64 leaves or with 0-d array leaves; data linear, quadratic, random or constant "
+                "in the variable; abscissae dyadic, arbitrary, int, mixed, repeated or containing -0.0; variable at the root or nested, "
+                "often a second variable queried on the same interpolator object, interleaved, one query repeated), supplied in up to "
+                "three orders, queried at nodes, inside, outside, one ulp beside a node, at +-inf and nan; plus exact-least-squares cases. "
+                "Non-trivial: the query is within the property's quantifier (same shape, distinct finite abscissae, finite value) and "
+                "either it is off-node with >= 2 interpolated float leaves, or it is at a node of a series supplied in non-sorted order; "
+                "distinct = distinct (series, order, method, path, value)")
     ctx.trusted = [
         "Coq 8.16.1 kernel incl. vm_compute; primitive floats (PrimFloat, Uint63) are kernel primitives",
         "harness/vcheck/pyexpr2coq.py + the statement-form reader in c20.py regenerating coq/C20/Gen.v from /repo on every run",
@@ -991,7 +994,8 @@ def run(ctx):
         "(non-mutation of inputs is checked on the implementation by snapshots of values and object identities)",
     ]
     ctx.assumptions = [
-        "order theorems assume the abscissa comparison is a total order whose equivalence is the dict's key equality (true for non-NaN numbers)",
+        "order theorems assume the abscissa comparison is a total order whose equivalence is the dict's key equality; proved for Z and Q, "
+        "decided by vm_compute on the abscissae and query value of every in-quantifier binary64 run (hyps_F in check_case)",
         "spline exactness on linear data is a hypothesis on the external routine (C20_trend is parametric in it); least squares is proved exact over Q",
         "binary64 results of linregress/CubicSpline enter the model as oracle values; exact least squares is tied to them at relative tolerance 1e-9",
     ]
@@ -1113,21 +1117,29 @@ def run(ctx):
 
 MANIFEST = {
     "text": "Coq 8.16 theorems over an executable model of AbstractInterpolator.__getitem__/_value_map, the float-path walk, "
-            "object_for_path and ModelObject.replacing_for_path on value trees, parametric in the number type, its comparisons and "
-            "the scipy routine: a query at a known abscissa returns that very instance (and only then); otherwise every float leaf "
-            "the walk finds is interp(sorted abscissae, aligned values, value), everything incomparable with those paths is "
-            "unchanged, the result is independent of the order of the series (for all permutations), the interpolation variable "
-            "equals the requested value when the final replacement is kept (refuted by a witness when it is discarded, with the "
-            "partial statement proved), exact-rational least squares + the code's own formula (regenerated from /repo) reproduces "
-            "linear data, hence linear trends through the whole interpolator; plus bit-exact vm_compute correspondence of the model "
-            "(scipy values as oracle tables) with LinearInterpolator/SplineInterpolator on generated series and a direct property "
-            "oracle (identity at nodes, exact least squares to 1e-9, spline bit-exact against scipy, variable, non-mutation of "
-            "inputs by value-and-identity snapshots, order independence) on every case",
-    "note": "Trusted: Coq kernel + vm_compute, primitive floats, the translator (pyexpr2coq.py + the statement-form reader in c20.py), "
-            "the tree abstraction of live objects. scipy linregress/CubicSpline are oracles (exact least squares is tied to linregress "
-            "at relative 1e-9; spline exactness on linear data is a hypothesis). Non-mutation of the inputs and object aliasing are "
-            "outside the functional tree model: they are checked on the implementation only (snapshots around every query). Order "
-            "theorems assume a total order on the abscissae (no NaN). Two recorded findings: the final replacing_for_path result is "
-            "discarded (repair proposed), floats inside tuples are not interpolated. CovarianceInterpolator is not covered.",
+            "object_for_path and ModelObject.replacing_for_path on value trees, parametric in the number type, its comparisons, "
+            "the scipy routine and the kind of leaf it returns (float / 0-d array): a query at a known abscissa returns that very "
+            "instance (and only then); otherwise every float leaf the walk finds is interp(sorted abscissae, aligned values, value), "
+            "everything incomparable with those paths is unchanged, a well-formed series never raises (C20_defined), the result is "
+            "independent of the order of the series (all permutations), the interpolation variable equals the requested value for "
+            "the code as it is (C20_variable_code, stated with the statement form regenerated from /repo), exact-rational least "
+            "squares + the code's own formula reproduces linear data, hence linear trends through the whole interpolator; plus "
+            "bit-exact vm_compute correspondence of the binary64 instance (scipy values as oracle tables) with "
+            "LinearInterpolator/SplineInterpolator on generated series (two interpolation variables interleaved and repeated on one "
+            "interpolator object, instances built by ModelInstance or by a Collection, frozen, aliased components, numpy.float64 and "
+            "0-d array leaves, inf/nan queries), the theorems' hypotheses (order axioms, distinct abscissae) decided by vm_compute on "
+            "the finite carrier of every in-quantifier run, and a direct property oracle (identity at nodes, exact least squares, "
+            "leaf types, variable, non-mutation and non-sharing by value-and-identity snapshots, order independence)",
+    "note": "Trusted: Coq kernel + vm_compute, primitive floats, the translator (pyexpr2coq.py + the statement/return-form readers in "
+            "c20.py), the tree abstraction of live objects. The order/known-point/per-leaf theorems are generic in the number type "
+            "under order axioms proved for Z and Q; for binary64 those axioms are not proved (they need the IEEE specification "
+            "axioms of the Coq library, which this development does not use) but checked by computation on the abscissae and query "
+            "of each run. scipy linregress/CubicSpline are oracles: exact least squares is tied to linregress at 1e-9 relative; for "
+            "the spline it is the identity with scipy's default CubicSpline that is pinned bit-exactly (another spline satisfying the "
+            "property text would need the oracle table changed), and exactness on linear data is a hypothesis checked at a "
+            "condition-number-scaled tolerance. Non-mutation of inputs is checked on the implementation only (the tree model is "
+            "functional, deepcopy and aliasing are not modelled). Dict-valued attributes are oracle-only. Recorded findings: floats "
+            "inside tuples, floats inside dicts (raises), spline results are 0-d arrays (repair proposed). Not covered: "
+            "CovarianceInterpolator, NaN abscissae, int abscissae beyond 2^53.",
     "technique": "machine-checked proof in Coq (translator-regenerated model) + vm_compute correspondence",
 }
